@@ -20,8 +20,8 @@ VACUITY = dict(need_ok=['encode', 'read', 'peek', 'property', 'parse', 'unpack',
 
 def describe(tier):
     q = tier == 'quick'
-    return dict(bounds=dict(encode_window=10000 if q else 200000, powers='+-(2**k + d), k <= 200, d in -2..2',
-                            decoder_inputs='every bit string of length <= %d, at pos 0 and after 1, 3, 8, 9 junk bits (length <= %d)' % ((15, 10) if q else (18, 13)),
+    return dict(bounds=dict(encode_window=10000 if q else 1000000, powers='+-(2**k + d), k <= 200, d in -2..2',
+                            decoder_inputs='every bit string of length <= %d, at pos 0 and after 1, 3, 8, 9 junk bits (length <= %d)' % ((15, 10) if q else (20, 15)),
                             sequences='every sequence of <= %d codewords of mixed kinds with values in [-3, 4]' % (3 if q else 4),
                             truncation='every proper prefix of every codeword for |v| <= 40; every codeword + 1..2 extra bits',
                             routes=['Cls(ue=v)', "Cls('ue=v')", 'x.ue = v', "Dtype('ue').build(v)", "pack('ue', v)", "pack('ue=v')"]),
@@ -35,13 +35,13 @@ def selftest():
 
 def shards(tier, seed):
     q = tier == 'quick'
-    W = 10000 if q else 200000
+    W = 10000 if q else 1000000
     out = []
     vals = list(range(-W, W + 1))
     for part in families.chunk(vals, 32):
         out.append(dict(kind='enc', lo=part[0], hi=part[-1]))
     out.append(dict(kind='encbig'))
-    n = 15 if q else 18
+    n = 15 if q else 20
     for L in range(0, n + 1):
         if L <= 10:
             out.append(dict(kind='dec', L=L, lo=0, hi=1 << L))
@@ -49,7 +49,7 @@ def shards(tier, seed):
             step = 1 << 10
             for lo in range(0, 1 << L, step):
                 out.append(dict(kind='dec', L=L, lo=lo, hi=lo + step))
-    out.append(dict(kind='junk', n=10 if q else 13))
+    out.append(dict(kind='junk', n=10 if q else 15))
     words = [(k, v) for k in G.KINDS for v in range(-3, 5) if not (v < 0 and k in G.UNSIGNED)]
     for part in families.chunk(words, len(words)):
         out.append(dict(kind='seq', first=part, depth=3 if q else 4))
